@@ -621,6 +621,27 @@ def flush (F : Oracle) (sz : Nat) (w : World) (p : Pers) : World × Pers × Flus
 def compact (F : Oracle) (cfg : CompactCfg) (sz : Nat) (w : World) : World × CompactOut :=
   compactWith current.compact F cfg sz w
 
+/-! ### `needs_compaction` / `compact_if_needed` (what `CompactionWorker::run` calls every interval) -/
+
+/-- `Compactor::needs_compaction`: one manifest load; `manifest.segments.len() >= max_segments`;
+    `none` = `Err(_)` -/
+def needsCompaction (F : Oracle) (maxSegs : Nat) (w : World) : World × Option Bool :=
+  match loadOrCreate F w 0 with
+  | (w1, none) => (w1, none)
+  | (w1, some m) => (w1, some (decide (m.segments.length ≥ maxSegs)))
+
+/-- `Compactor::compact_if_needed`: `Ok(None)` (not needed, or `NothingToCompact`) is `.nothing` -/
+def compactIfNeededWith (fl : CompactFlags) (F : Oracle) (cfg : CompactCfg) (maxSegs sz : Nat) (w : World) :
+    World × CompactOut :=
+  match needsCompaction F maxSegs w with
+  | (w1, none) => (w1, .error)
+  | (w1, some false) => (w1, .nothing)
+  | (w1, some true) => compactWith fl F cfg sz w1
+
+/-- `compact_if_needed` of the current tree -/
+def compactIfNeeded (F : Oracle) (cfg : CompactCfg) (maxSegs sz : Nat) (w : World) : World × CompactOut :=
+  compactIfNeededWith current.compact F cfg maxSegs sz w
+
 /-- the manifest references only complete objects (and is itself complete) -/
 def refsComplete (st : Store) : Bool :=
   match NMap.get st manifestName with
